@@ -46,8 +46,9 @@ META = dict(
          'fail-closed; no Scala parser exists offline). Trusted base: CPython ast; that extractor; the frozen EType layout table in this module '
          '(EInt32/EInt64/EFloat32/EFloat64/EBoolean/EBinary/EBaseStruct/EArray/EUnsortedSet/EDictAsUnsortedArrayOfPairs/ENDArrayColumnMajor, '
          'read from their _buildEncoder/_buildDecoder by hand); struct standard sizes; well-typed values (rank of an ndarray value == ndim of its type).',
-    technique='static analysis: extraction of wire programs (regular signatures with loops/conditionals) from ASTs on both directions and from the Scala '
-              'type-to-encoding table, compared symbolically',
+    technique='static analysis: extraction of wire programs (regular signatures with loops/conditionals, helpers that receive the stream inlined) from ASTs on both '
+              'directions and from the Scala type-to-encoding table, compared symbolically; the missing-bit code of writers and readers is evaluated by an own interpreter '
+              'over symbolic missingness bits (n = 0..17 slots); type guards of bulk paths are evaluated from the module\'s class tables; numpy memory order from an idiom table',
     design_ref='DESIGN.md §3 C33',
 )
 
